@@ -466,6 +466,9 @@ func fallback(tokens []Token, _ string, out *csDescriptors) error {
 // “symbols“ descriptor validation.
 func symbols(tokens []Token, baseUrl string, out *csDescriptors) error {
 	// an invalid declaration is ignored as a whole and a valid one replaces the previous value
+	if len(tokens) == 0 {
+		return ErrInvalidValue
+	}
 	var symbols []pr.NamedString
 	for _, token := range tokens {
 		if p, ok := stringIdentOrUrl(token, baseUrl); ok {
